@@ -27,6 +27,9 @@ CaptchaHMACSecret = "736563726574"
 [[IRC.Operators]]
 Name = "root"
 Password = "operpw"
+[[IRC.Operators]]
+Name = "admin"
+Password = "adminpw"
 [[IRC.Services]]
 Password = "svcpw"
 [TrustedBridges]
@@ -107,6 +110,7 @@ var vLong3 = strings.Repeat("\u20ac", 190)
 var vTexts = []string{"hi", "", ":x", "a b", "x\ry", "x\x00y", "x\rQUIT :injected", vLong600, vLong520, "ünï", "x\ny", "x\n:b!ub@robust/0x5 PRIVMSG #c :forged",
 	// long runs of 4-byte and 3-byte characters at every byte alignment: the 510-byte cut of a relayed line
 	// then falls after the 1st, 2nd or 3rd byte of a character
+	"a\rb\nc", "a\x00b\nc", "a\rQUIT :x\n:b!ub@robust/0x5 PRIVMSG #c :forged\n",
 	vLong4, "a" + vLong4, "aa" + vLong4, "aaa" + vLong4, vLong3, "a" + vLong3, "aa" + vLong3}
 
 func vClientLines(now int64, full bool) []VLine {
@@ -126,7 +130,7 @@ func vClientLines(now int64, full bool) []VLine {
 	add("pass", "PASS pw", "PASS :nickserv=x", "PASS :services=svcpw", "PASS :services=wrong", "PASS :oper=root operpw", "PASS :oper=root wrong", "PASS :oper=root", "PASS", "PASS :", "PASS :session=x:oper=root operpw",
 		"PASS :captcha="+tok(fmt.Sprintf("okay:login:%d:", now)), "PASS :captcha="+tok(fmt.Sprintf("login:%d:", now)), "PASS :captcha="+vCaptcha(vSecret, fmt.Sprintf("okay:login:%d:", now), "authXXXX", true),
 		"PASS :captcha="+tok(fmt.Sprintf("okay:login:%d:", now-int64(6*time.Minute))), "PASS :captcha=x.y", "PASS :captcha=!.!.!")
-	add("oper", "OPER root operpw", "OPER root wrong", "OPER nobody operpw", "OPER root", "OPER root :", "OPER", "OPER admin otherpw")
+	add("oper", "OPER root operpw", "OPER root wrong", "OPER nobody operpw", "OPER root", "OPER root :", "OPER", "OPER admin otherpw", "OPER admin adminpw", "OPER root adminpw", "OPER admin operpw")
 	add("join", "JOIN #c", "JOIN #C", "JOIN #d", "JOIN #new", "JOIN #c,#d", "JOIN #c key", "JOIN #c KEY", "JOIN #c wrong", "JOIN #c,#d key,key2", "JOIN #new,#c", "JOIN #new,#d,#c", "JOIN #d,#new", "JOIN #new,#new2", "JOIN c", "JOIN #", "JOIN", "JOIN :", "JOIN #c,", "JOIN ,", "JOIN #c,#c",
 		"JOIN #"+strings.Repeat("x", 32), "JOIN #"+strings.Repeat("x", 33), "JOIN #a\x07b", "JOIN 0",
 		"JOIN #c "+tok(okJoin), "JOIN #c "+vCaptcha(vSecret, okJoin, "authXXXX", true), "JOIN #c "+tok(fmt.Sprintf("join:%d:#c", now)),
@@ -136,7 +140,7 @@ func vClientLines(now int64, full bool) []VLine {
 	add("part", "PART #c", "PART #C", "PART #d", "PART #c,#d", "PART #none", "PART #c :bye", "PART", "PART :", "PART ,")
 	add("kick", "KICK #c a", "KICK #c b", "KICK #c B", "KICK #c c", "KICK #c nobody", "KICK #d a", "KICK #d b", "KICK #c a :reason", "KICK #c b :", "KICK #c ChanServ", "KICK #none a", "KICK #c", "KICK", "KICK #c :", "KICK : :", "KICK #C a", "KICK #C b", "KICK #C c :x", "KICK #D b")
 	add("topic", "TOPIC #c", "TOPIC #c :", "TOPIC #c :new topic", "TOPIC #c new", "TOPIC #d :x", "TOPIC #d :", "TOPIC #C :t2", "TOPIC #none :x", "TOPIC #none", "TOPIC", "TOPIC :", "TOPIC #c a b", "TOPIC #c a :")
-	add("mode", "MODE #c", "MODE #c +i", "MODE #c -i", "MODE #c +k key", "MODE #c +k KEY", "MODE #c +k", "MODE #c -k", "MODE #c -k key", "MODE #c +b", "MODE #c b", "MODE #c +b a!*@*", "MODE #c +b b!*@*", "MODE #c -b b!*@*", "MODE #c -b a!*@*", "MODE #c +b *!*@10.0.0.*",
+	add("mode", "MODE #c", "MODE #c +i", "MODE #c -i", "MODE #c +k key", "MODE #c +k KEY", "MODE #c +k", "MODE #c -k", "MODE #c -k key", "MODE #c +b", "MODE #c b", "MODE #c +b a!*@*", "MODE #c +b b!*@*", "MODE #c -b b!*@*", "MODE #c -b a!*@*", "MODE #c -b *!*@robust/0x5", "MODE #c -b *!*@robust/0x8", "MODE #c +b *!*@robust/0x5", "MODE #c +b *!*@robust/0x8", "MODE #c +b *!*@10.0.0.*",
 		"MODE #c +b *!*@robust/0x2", "MODE #c +b *!*@robust/0x5", "MODE #c +b *!*@robust/0xzz", "MODE #c +b [", "MODE #c +b (", "MODE #c +b \\", "MODE #c +o b", "MODE #c -o a", "MODE #c -o b", "MODE #c +o a", "MODE #c +o nobody", "MODE #c +o", "MODE #c +x", "MODE #c -x", "MODE #c +t", "MODE #c -t",
 		"MODE #c +n", "MODE #c -n", "MODE #c +s", "MODE #c -s", "MODE #c +t-t", "MODE #c +nst", "MODE #c +G", "MODE #c +z", "MODE #c +ob b a!*@*", "MODE #c +", "MODE #c -", "MODE #c :", "MODE #c o", "MODE #c +r", "MODE #c +d x", "MODE #d +i", "MODE #d +o a", "MODE #d -o b", "MODE #d +k k2",
 		"MODE a +i", "MODE a -i", "MODE a +G", "MODE a -G", "MODE b +i", "MODE b", "MODE a", "MODE a +o", "MODE a +", "MODE a :", "MODE", "MODE #none +i", "MODE nobody +i", "MODE ChanServ +i", "MODE A +i", "MODE a +iG", "MODE a +r",
